@@ -11,9 +11,9 @@ import (
 
 func init() {
 	register("C34", propMeta{
-		Explanation: "(R1) sop.Authorize: all acyclic control-flow paths to `return true` are enumerated with the branch conditions they take (exhaustive); every such path must have taken the false edge of `Visibility == VisibilitySystem` and must contain one complete justification: admin role; non-empty owner equal to the caller; public-or-empty visibility with action read or list; a role grant of the action or *; a user grant of the action or *. The system branch returns exactly caller.IsSystem and every other return is the literal false. (R2) CheckPolicy returns ErrSystemReadOnly for write/delete on the core system names before consulting the ACL, reaches Authorize otherwise, and returns nil only when Authorize returned true. (R3) the UI map agrees with enforcement: CanPerformAction is CheckPolicy==nil, EnforcePolicy returns CheckPolicy, and ResolveRBACMap's default branch calls CanPerformAction for the same action and asset; custom evaluators registered through RegisterAssetRBAC are listed as not covered.",
+		Explanation:  "(R1) sop.Authorize: all acyclic control-flow paths to `return true` are enumerated with the branch conditions they take (exhaustive); every such path must have taken the false edge of `Visibility == VisibilitySystem` and must contain one complete justification: admin role; non-empty owner equal to the caller; public-or-empty visibility with action read or list; a role grant of the action or *; a user grant of the action or *. The system branch returns exactly caller.IsSystem and every other return is the literal false. (R2) CheckPolicy returns ErrSystemReadOnly for write/delete on the core system names before consulting the ACL, reaches Authorize otherwise, and returns nil only when Authorize returned true. (R3) the UI map agrees with enforcement: CanPerformAction is CheckPolicy==nil, EnforcePolicy returns CheckPolicy, and ResolveRBACMap's default branch calls CanPerformAction for the same action and asset; custom evaluators registered through RegisterAssetRBAC are listed as not covered.",
 		DoesNotCover: "Custom per-asset Evaluator functions, and callers that forget to call CheckPolicy at all.",
-		Technique:   "static analysis: exhaustive enumeration of acyclic CFG paths with typed guard classification (decision-table extraction)",
+		Technique:    "static analysis: exhaustive enumeration of acyclic CFG paths with typed guard classification (decision-table extraction)",
 	}, runC34)
 }
 
@@ -261,7 +261,9 @@ func runC34(c *Ctx) {
 		offs := gc.MustPrecede(nodeSet(ro), calls("sop.Authorize"))
 		c.Offences(gc, offs, r2, "CheckPolicy: system invariant evaluated before the ACL", fc.Decl.Pos(), "IsSystemReadOnly dominates Authorize", "ACL consulted without evaluating the system invariant")
 		au := gc.condNodes(func(e ast.Expr) bool { return w.mentionsCall(fc, e, "sop.Authorize") })
-		offs = gc.notOnlyVia(au, 1, func(n *GNode) bool { return n.Ret != nil && gc.ClassifyReturn(n) != RetNonNil && !(len(n.Ret.Results) == 1 && mentionsObj(ci, n.Ret.Results[0], errRO)) })
+		offs = gc.notOnlyVia(au, 1, func(n *GNode) bool {
+			return n.Ret != nil && gc.ClassifyReturn(n) != RetNonNil && !(len(n.Ret.Results) == 1 && mentionsObj(ci, n.Ret.Results[0], errRO))
+		})
 		c.Check(len(au) == 1, r2, "CheckPolicy: consults Authorize", fc.Decl.Pos(), "one Authorize branch", "Authorize is no longer branched on", nil)
 		c.Offences(gc, offs, r2, "CheckPolicy: nil only when Authorize returned true", fc.Decl.Pos(), "nil return only on Authorize's true edge", "CheckPolicy can allow without Authorize having returned true")
 		// IsSystemReadOnly names
